@@ -14,12 +14,17 @@ Lemma vhold_ext s s' c : gc s' c = gc s c -> vhold s' c = vhold s c.
 Proof. unfold vhold; intros ->; reflexivity. Qed.
 Lemma vheld_ext s s' c : gc s' c = gc s c -> vheld s' c = vheld s c.
 Proof. unfold vheld; intros ->; reflexivity. Qed.
+Lemma vxhold_ext s s' k : gx s' k = gx s k -> vxhold s' k = vxhold s k.
+Proof. unfold vxhold; intros ->; reflexivity. Qed.
+Lemma vxhold_sx s k v k' :
+  vxhold (sx s k v) k' = if k' =? k then match x_hold v with Some (IMsg o) => [o] | _ => [] end else vxhold s k'.
+Proof. unfold vxhold. rewrite gx_sx. destruct (k' =? k); reflexivity. Qed.
 
 (** updates of objects / ids / delivered list do not change any view *)
 Lemma views_so s o v :
   (forall t hi, vchan (so s o v) t hi = vchan s t hi) /\ (forall c, vrecv (so s o v) c = vrecv s c)
   /\ (forall c, vhold (so s o v) c = vhold s c) /\ (forall c, vheld (so s o v) c = vheld s c)
-  /\ vpend (so s o v) = vpend s.
+  /\ vpend (so s o v) = vpend s /\ (forall k, vxhold (so s o v) k = vxhold s k).
 Proof. repeat split. Qed.
 
 Lemma vchan_st s t v t' hi :
@@ -50,13 +55,16 @@ Proof.
   destruct h; simpl; [destruct (fspace (hcap cp) (t_high tp))|destruct (fspace (lcap cp) (t_low tp))]; reflexivity.
 Qed.
 
-Lemma aget_map_close_view cp t m h :
+Lemma aget_map_close_view_gen cp t m h :
   objs_of (f_items (chan_of (aget topic0 t (map (fun kv => (fst kv, close_topic_rec cp (snd kv))) m)) h))
   = objs_of (f_items (chan_of (aget topic0 t m) h)).
 Proof.
   induction m as [|[k v] m IH]; simpl; [reflexivity|].
   destruct (t =? k); [apply vchan_close_topic|apply IH].
 Qed.
+Lemma aget_map_close_view s t h :
+  objs_of (f_items (chan_of (aget topic0 t (close_all s)) h)) = objs_of (f_items (chan_of (gt s t) h)).
+Proof. apply aget_map_close_view_gen. Qed.
 
 (** popping *)
 Lemma fpop_objs f x f' :
